@@ -278,12 +278,20 @@ var trustedBase = []string{
 // failed sub-obligation (or a single held one): used where a property rests on an invariant
 // that another property's rules establish.
 func (c *Check) Depend(rule, otherID string, f propFunc, onlyRules map[string]bool, why string) {
+	c.DependOn(rule, otherID, f, onlyRules, nil, why)
+}
+
+// DependOn: Depend restricted to the obligations of the other property whose construct matches constructRe.
+func (c *Check) DependOn(rule, otherID string, f propFunc, onlyRules map[string]bool, constructRe *regexp.Regexp, why string) {
 	sub := NewCheck(c.p, otherID, c.Tier)
 	sub.Quiet = true
 	f(sub)
 	n, bad := 0, 0
 	for _, o := range sub.Obs {
 		if onlyRules != nil && !onlyRules[o.Rule] {
+			continue
+		}
+		if constructRe != nil && !constructRe.MatchString(o.Construct) {
 			continue
 		}
 		n++
